@@ -110,7 +110,14 @@ def gen(rng, n_cases, classes=("rnc", "constr")):
             # +inf objective values (penalised / failed evaluations): dominance and ranks are still well defined.
             # The crowding values of such fronts are NaN-ridden in NumPy, so these records are judged by the
             # rank / feasibility oracles only and are not sent to the Lean model.
-            F = np.where(rng.random_sample(F.shape) < 0.2, np.inf, F)
+            if rng.randint(3) == 0 and metric in ("cd", "ce"):
+                # failed evaluations: some individuals with all objectives NaN (only the count / identity clauses of C03
+                # are judged on these; partly-NaN rows can make pymoo's sorting loop for ever and are not generated)
+                F = np.where(rng.random_sample((n, 1)) < 0.3, np.nan, F)
+                if np.isnan(F).all():
+                    F[0] = 0.5
+            else:
+                F = np.where(rng.random_sample(F.shape) < 0.2, np.inf, F)
             inf_F = True
         yield {"cls": cls, "metric": metric, "n_survive": n_survive, "F": F, "G": G, "H": H, "warm": warm, "inf_F": inf_F, "ret_idx": ret_idx, "cv_eps": cv_eps,
                "seed": int(rng.randint(2**31 - 1))}
@@ -372,6 +379,8 @@ def oracle_C03(rec):
 
 
 def oracle_C04(rec):
+    if rec.cfg.get("inf_F") and np.isnan(rec.inp["F"]).any():
+        return []       # dominance among NaN objectives is not defined: C03's clauses only
     if rec.err is not None:
         return ["survival raised: " + rec.err]
     if rec.cfg["cls"] != "rnc":
